@@ -11,8 +11,8 @@ O2 (E2, z3)  the real BlackbirdErrorListener.syntaxError is executed on parser-e
 O3 (concrete) every mutant of the corpus goes through blackbird.loads: non-sentences (decided by the CFG encoding on the
              mutant's token types) must raise BlackbirdSyntaxError carrying the line and 1-based column of the token the
              parser reports; a mutant that is still a sentence must not fail in the syntax stage.
-Not decided: that the reported token is never earlier than the first token that makes the text ungrammatical
-(a property of the runtime's prediction).
+The lower bound on the reported position (never earlier than the first token that makes the text ungrammatical) is
+checked on every mutant against a viable-prefix computation on the grammar (concrete); it is not decided for all inputs.
 """
 import ast
 import os
@@ -242,6 +242,16 @@ def concrete_text(text, lg=None):
             m = str(exc.args[0]) if exc.args else ""
             if want not in m:
                 return dict(base, what="the message does not carry the line and 1-based column of the offending token", observed=m[:200], expected=want)
+            # never earlier than the first token that makes the text ungrammatical (viable-prefix computation on the grammar NFAs)
+            tp = lg.real_tokens_pos(text)
+            k0 = cfg.first_offending_index(lg.parser_G(), lg.rule_ids["start"], types + [0])
+            if ev["sym"].type == -1:
+                ri = len(tp)
+            else:
+                ri = next((i for i, (nm, tx, ln, c) in enumerate(tp) if (ln, c) == (ev["line"], ev["column"])), None)
+            if k0 is not None and ri is not None and ri < k0:
+                return dict(base, what="the reported token comes before the first token that makes the text ungrammatical",
+                            observed="token index %d at %s" % (ri, want), expected="index >= %d" % k0)
         return None
     # still a sentence: the syntax stage must not fail
     if ev is not None:
@@ -289,7 +299,7 @@ def main():
         "the antlr4 runtime reports a syntax error exactly for the non-sentences of L(ATN) (ALL(*)), and calls the installed listener",
         "error states are harvested from the real parser on single-token mutants of the corpus (the state space is sampled, the values in a state are symbolic)",
         "message text and offending text are completely free strings (a superset of what the runtime can produce)",
-        "not decided: the reported token is never earlier than the first offending token",
+        "the reported token is compared with the first offending token (Earley-style viable-prefix computation on the grammar NFAs) for the mutants only: concrete, not decided for all inputs",
     ]
     rnd = random.Random(common.seed())
     lg = langmod.Lang()
